@@ -111,6 +111,17 @@ func flipped(b []byte, bit int) []byte {
 	return c
 }
 
+// a single-byte mutation: byte i replaced by another value (0x00, 0xff or anything else)
+func byteChanged(r *Rng, b []byte, i int) []byte {
+	c := exact(b)
+	v := byte(r.Pick(0, 0xff, int(r.U64()&0xff), int(c[i])^0x80, int(c[i])+1))
+	if v == c[i] {
+		v ^= 0x55
+	}
+	c[i] = v
+	return c
+}
+
 // ---------- sign then verify (cbnt / bg KeySignature) ----------
 
 func cloneKS(ks *cbnt.KeySignature) cbnt.KeySignature {
@@ -434,6 +445,20 @@ func pBpmKey(args []string) string {
 		return "FAIL key-roundtrip: " + err.Error()
 	}
 	digest := hashOf(alg, key.Data[4:])
+	// cbnt: further entries with the BPM usage bit, each with a hash algorithm of its own (all of them have to match)
+	type bpmEntry struct {
+		alg    cbnt.Algorithm
+		digest []byte
+	}
+	var more []bpmEntry
+	if args[0] != "bg" {
+		for i, n := 0, r.Pick(0, 1, 1, 2); i < n; i++ {
+			a := cbnt.Algorithm(r.Pick(4, 0xb, 0xc, 0xd, 0x12))
+			more = append(more, bpmEntry{a, hashOf(a, key.Data[4:])})
+		}
+	}
+	firstAt := r.Intn(len(more) + 1) // position of the digest under test among the BPM entries
+	var validateMore func(keyData, dig []byte, more []bpmEntry) error
 	var validate func(keyData, dig []byte) error
 	if args[0] == "bg" {
 		validate = func(keyData, dig []byte) error {
@@ -441,17 +466,32 @@ func pBpmKey(args []string) string {
 			return m.ValidateBPMKey(bg.KeySignature{Key: bg.Key{KeyAlg: bg.AlgRSA, Data: keyData}})
 		}
 	} else {
-		validate = func(keyData, dig []byte) error {
+		validateMore = func(keyData, dig []byte, more []bpmEntry) error {
 			m := cbntkey.Manifest{}
 			// entries for other usages do not matter, whatever they contain
-			for i := 0; i < extra; i++ {
-				m.Hash = append(m.Hash, cbntkey.Hash{Usage: cbntkey.Usage(2 << uint(r.Intn(4))),
-					Digest: cbnt.HashStructure{HashAlg: cbnt.Algorithm(r.Pick(0, 4, 11, 12, 99)), HashBuffer: r.Bytes(r.Intn(40))}})
+			other := func(n int) {
+				for i := 0; i < n; i++ {
+					m.Hash = append(m.Hash, cbntkey.Hash{Usage: cbntkey.Usage(2 << uint(r.Intn(4))),
+						Digest: cbnt.HashStructure{HashAlg: cbnt.Algorithm(r.Pick(0, 4, 11, 12, 99)), HashBuffer: r.Bytes(r.Intn(40))}})
+				}
 			}
-			m.Hash = append(m.Hash, cbntkey.Hash{Usage: cbntkey.UsageBPMSigningPKD | cbntkey.Usage(r.Intn(16)<<1),
-				Digest: cbnt.HashStructure{HashAlg: alg, HashBuffer: dig}})
+			bpm := func(a cbnt.Algorithm, d []byte) {
+				m.Hash = append(m.Hash, cbntkey.Hash{Usage: cbntkey.UsageBPMSigningPKD | cbntkey.Usage(r.Intn(16)<<1),
+					Digest: cbnt.HashStructure{HashAlg: a, HashBuffer: exact(d)}})
+			}
+			other(extra)
+			for i := 0; i <= len(more); i++ {
+				if i == firstAt {
+					bpm(alg, dig)
+				}
+				if i < len(more) {
+					bpm(more[i].alg, more[i].digest)
+					other(r.Intn(2))
+				}
+			}
 			return m.ValidateBPMKey(cbnt.KeySignature{Key: cbnt.Key{KeyAlg: cbnt.AlgRSA, Data: keyData}})
 		}
+		validate = func(keyData, dig []byte) error { return validateMore(keyData, dig, more) }
 	}
 	if err := validate(exact(key.Data), exact(digest)); err != nil {
 		return "FAIL bpmkey-rejected: matching digest refused: " + err.Error()
@@ -464,6 +504,27 @@ func pBpmKey(args []string) string {
 	for bit := 0; bit < len(digest)*8; bit++ {
 		if validate(exact(key.Data), flipped(digest, bit)) == nil {
 			return "FAIL digest-bit-accepted"
+		}
+	}
+	// every digest with the BPM usage bit is covered, wherever it stands in the list
+	for j := range more {
+		for _, bit := range flipPositions(r, len(more[j].digest), all) {
+			bad := append([]bpmEntry{}, more...)
+			bad[j] = bpmEntry{more[j].alg, flipped(more[j].digest, bit)}
+			if validateMore(exact(key.Data), exact(digest), bad) == nil {
+				return fmt.Sprintf("FAIL digest-bit-accepted: BPM key digest %d of %d (hash %v) changed, still accepted", j+2, len(more)+1, more[j].alg)
+			}
+		}
+	}
+	// no digest for the BPM key at all: success would not be bound to any key
+	if args[0] != "bg" {
+		m := cbntkey.Manifest{}
+		for i := 0; i < extra; i++ {
+			m.Hash = append(m.Hash, cbntkey.Hash{Usage: cbntkey.Usage(2 << uint(r.Intn(4))),
+				Digest: cbnt.HashStructure{HashAlg: alg, HashBuffer: exact(digest)}})
+		}
+		if m.ValidateBPMKey(cbnt.KeySignature{Key: cbnt.Key{KeyAlg: cbnt.AlgRSA, Data: exact(key.Data)}}) == nil {
+			return "FAIL bpmkey-vacuous: accepted although no entry of the key manifest has the BPM usage"
 		}
 	}
 	// the exponent (first four bytes of the key data) is not hashed
@@ -507,10 +568,41 @@ func pIbb(args []string) string {
 		}
 	}
 	digest := hashOf(alg, stream)
+	// further SE elements (segments inside the image, digests of their own) have no say: the verdict is
+	// the one of the first element
+	var se2 []segArg
+	rs := r.Fork(2)
+	for i, n := 0, rs.Pick(0, 1, 2, 3); i < n && len(fw) > 0; i++ {
+		sz := rs.Intn(len(fw)/2 + 1)
+		off := rs.Intn(len(fw) - sz + 1)
+		se2 = append(se2, segArg{flags: uint16(rs.Pick(0, 0, 2, 1)), base: uint32(uint64(1)<<32 - uint64(len(fw)) + uint64(off)), size: uint32(sz)})
+	}
+	// (they carry the correct SHA-256 digest of their own segments, and nothing is demanded for bytes that only
+	// they cover: a reading that checks every element is not reported)
+	var st2 []byte
+	covered2 := make([]bool, len(fw))
+	for _, g := range se2 {
+		if g.flags&1 == 1 {
+			continue
+		}
+		off := uint64(g.base) - (uint64(1)<<32 - uint64(len(fw)))
+		st2 = append(st2, fw[off:off+uint64(g.size)]...)
+		for i := off; i < off+uint64(g.size); i++ {
+			covered2[i] = true
+		}
+	}
+	dig2 := sha256Of(st2)
+	nSE := rs.Pick(1, 2, 2, 3)
+	if nSE == 1 {
+		covered2 = make([]bool, len(fw))
+	}
 	var validate func(f, dig []byte) error
 	if args[0] == "bg" {
 		validate = func(f, dig []byte) error {
 			m := &bgbootpolicy.Manifest{SE: []bgbootpolicy.SE{{Digest: bg.HashStructure{HashAlg: bg.Algorithm(alg), HashBuffer: dig}, IBBSegments: bgSegs(segs)}}}
+			for i := 1; i < nSE; i++ {
+				m.SE = append(m.SE, bgbootpolicy.SE{Digest: bg.HashStructure{HashAlg: bg.AlgSHA256, HashBuffer: exact(dig2)}, IBBSegments: bgSegs(se2)})
+			}
 			return m.ValidateIBB(&fakeFW{buf: exact(f)})
 		}
 	} else {
@@ -518,7 +610,12 @@ func pIbb(args []string) string {
 			se := cbntbootpolicy.SE{IBBSegments: cbntSegs(segs)}
 			se.DigestList.List = []cbnt.HashStructure{{HashAlg: alg, HashBuffer: dig},
 				{HashAlg: cbnt.AlgSHA1, HashBuffer: r.Bytes(20)}} // only the first digest is checked
-			m := &cbntbootpolicy.Manifest{SE: []cbntbootpolicy.SE{se, {}}}
+			m := &cbntbootpolicy.Manifest{SE: []cbntbootpolicy.SE{se}}
+			for i := 1; i < nSE; i++ {
+				o := cbntbootpolicy.SE{IBBSegments: cbntSegs(se2)}
+				o.DigestList.List = []cbnt.HashStructure{{HashAlg: cbnt.AlgSHA256, HashBuffer: exact(dig2)}}
+				m.SE = append(m.SE, o)
+			}
 			return m.ValidateIBB(&fakeFW{buf: exact(f)})
 		}
 	}
@@ -530,6 +627,9 @@ func pIbb(args []string) string {
 		if all || len(fw) <= 64 {
 			bits = []int{0, 1, 2, 3, 4, 5, 6, 7}
 		}
+		if !covered[i] && covered2[i] {
+			continue
+		}
 		for _, b := range bits {
 			err := validate(flipped(fw, i*8+b), digest)
 			if covered[i] && err == nil {
@@ -538,6 +638,13 @@ func pIbb(args []string) string {
 			if !covered[i] && err != nil {
 				return fmt.Sprintf("FAIL uncovered-influences: firmware byte %d outside the hashed segments changed the verdict", i)
 			}
+		}
+		err := validate(byteChanged(r, fw, i), digest)
+		if covered[i] && err == nil {
+			return fmt.Sprintf("FAIL data-bit-accepted: firmware byte %d inside a hashed segment replaced, still accepted", i)
+		}
+		if !covered[i] && err != nil {
+			return fmt.Sprintf("FAIL uncovered-influences: firmware byte %d outside the hashed segments replaced, verdict changed", i)
 		}
 	}
 	for bit := 0; bit < len(digest)*8; bit++ {
@@ -711,6 +818,29 @@ func pPsb(args []string) string {
 	if err := pspVerdict(ks, l.raw); err != nil {
 		return "FAIL psb-rejected: correctly signed PSP binary refused: " + err.Error()
 	}
+	// psb.NewSignedBlob called directly: any other length of the data, and a reversed signature, are refused
+	{
+		var kid psb.KeyID
+		copy(kid[:], id)
+		key := ks.GetKey(kid)
+		if key == nil {
+			return "harness-error key set"
+		}
+		sig, signed := exact(l.raw[l.sigStart:l.sigEnd]), exact(l.raw[:l.signedEnd])
+		blob, err := psb.NewSignedBlob(sig, signed, key)
+		_ = blob
+		if err != nil {
+			return fmt.Sprintf("FAIL psb-rejected: NewSignedBlob refuses signature and data of a correctly signed binary: %v", err)
+		}
+		for _, d := range [][]byte{signed[:len(signed)-1], append(exact(signed), 0), signed[1:], nil} {
+			if _, err := psb.NewSignedBlob(sig, d, key); err == nil {
+				return "FAIL signed-bit-accepted: NewSignedBlob accepts the signature for data of another length"
+			}
+		}
+		if _, err := psb.NewSignedBlob(reversed(sig), signed, key); err == nil {
+			return "FAIL signature-bit-accepted: NewSignedBlob accepts the byte-reversed signature"
+		}
+	}
 	region := func(i int) string {
 		switch {
 		case i < l.signedEnd:
@@ -828,6 +958,16 @@ func pToken(args []string) string {
 	if other.Size() == 256 || other.Size() == 512 {
 		if verdict(keySetOf(psbRootKeyBytes(&other.PublicKey, rootID, 0, r)), tok) == nil {
 			return "FAIL other-key-accepted"
+		}
+	}
+	// a token that names itself as its certifier and is signed with its own key: not a member of any key set
+	if tk.Size() == 256 || tk.Size() == 512 {
+		selfID := r.Bytes(16)
+		body := psbKeyBytes(uint32(r.U64()), selfID, selfID, uint32(r.Pick(0, 1, 2, 8)), r.Bytes(16), uint32(tk.Size()*8), uint32(tk.Size()*8),
+			leBytes(big.NewInt(int64(tk.E)), tk.Size()), leBytes(tk.N, tk.Size()))
+		self := append(body, reversed(pssSign(tk, body, r))...)
+		if verdict(ks, self) == nil || verdict(psb.NewKeySet(), self) == nil {
+			return "FAIL token-without-member-accepted: a token certified by itself"
 		}
 	}
 	for _, bit := range flipPositions(r, root.Size(), all) {
@@ -993,16 +1133,46 @@ func pResign(args []string) string {
 				return "FAIL resign-verify: " + where + ": stored SM2 signature does not verify"
 			}
 		}
-		// write and read back (RSA signatures only: the wire size of Signature.Data is KeySize/8)
-		if _, isRSA := priv.(*rsa.PrivateKey); roundtrip && isRSA {
+		// write and read back: the structure read from the wire holds the same signature (for ECDSA / SM2 the
+		// wire size of Signature.Data is twice KeySize/8), and the sequence goes on with it
+		if roundtrip {
+			_, isRSA := priv.(*rsa.PrivateKey)
 			var buf bytes.Buffer
+			// what was read back verifies like what was written: RSA with the library, ECDSA / SM2 under the
+			// standard algorithm with the hash the structure names
+			stdVerify := func(g *cbnt.Signature) string {
+				sd, err := g.SignatureData()
+				if err != nil {
+					return err.Error()
+				}
+				switch k := priv.(type) {
+				case *rsa.PrivateKey:
+					if err := sd.Verify(&k.PublicKey, g.HashAlg, msg); err != nil {
+						return err.Error()
+					}
+				case *ecdsa.PrivateKey:
+					es, ok := sd.(cbnt.SignatureECDSA)
+					if !ok || !ecdsa.Verify(&k.PublicKey, hashOf(g.HashAlg, msg), es.R, es.S) {
+						return "does not verify under the standard algorithm"
+					}
+				case *sm2.PrivateKey:
+					ss, ok := sd.(cbnt.SignatureSM2)
+					if !ok || !sm2.Sm2Verify(&k.PublicKey, msg, sm2UID, ss.R, ss.S) {
+						return "does not verify under the standard algorithm"
+					}
+				}
+				return ""
+			}
 			if container == "sig" {
 				if _, err := sg.WriteTo(&buf); err != nil {
 					return "FAIL resign-roundtrip: write: " + err.Error()
 				}
 				var back cbnt.Signature
 				if _, err := back.ReadFrom(bytes.NewReader(buf.Bytes())); err != nil {
-					return "FAIL resign-roundtrip: read: " + err.Error()
+					return "FAIL resign-roundtrip: " + where + ": read: " + err.Error()
+				}
+				if e := stdVerify(&back); e != "" {
+					return "FAIL resign-roundtrip: " + where + ": the signature read back " + e
 				}
 				sg = back
 			} else {
@@ -1011,10 +1181,14 @@ func pResign(args []string) string {
 				}
 				var back cbnt.KeySignature
 				if _, err := back.ReadFrom(bytes.NewReader(buf.Bytes())); err != nil {
-					return "FAIL resign-roundtrip: read: " + err.Error()
+					return "FAIL resign-roundtrip: " + where + ": read: " + err.Error()
 				}
-				if err := back.Verify(msg); err != nil {
-					return "FAIL resign-roundtrip: " + where + ": read back signature does not verify: " + err.Error()
+				if isRSA {
+					if err := back.Verify(msg); err != nil {
+						return "FAIL resign-roundtrip: " + where + ": read back signature does not verify: " + err.Error()
+					}
+				} else if e := stdVerify(&back.Signature); e != "" {
+					return "FAIL resign-roundtrip: " + where + ": the signature read back " + e
 				}
 				*ksOf() = back
 			}
@@ -1032,4 +1206,5 @@ func registerOracles() {
 	Register("p_ibb", pIbb)
 	Register("p_psb", pPsb)
 	Register("p_token", pToken)
+	Register("p_amd_image", pAmdImage)
 }
